@@ -357,6 +357,11 @@ def c07(run, op, ctx, after):
             run.v("C07", "C07.unissued-token-accepted", "sync-collection on %s with never-issued token %r (%s) -> %s" % (coll, ctx.get("token_text"), ti.get("class"), r.status), token_class=ti.get("class", "literal"))
         return
     if r.status != 207:
+        if ctx.get("read_fault"):
+            # an injected read error may fail the report (5xx, or 412 "token not valid", which sends
+            # the client into a full resynchronisation); it may not make a 207 lie
+            run.nontrivial["sync_failed_under_read_fault"] = run.nontrivial.get("sync_failed_under_read_fault", 0) + 1
+            return
         if r.status >= 500 or r.status in (412, 403, 400):
             run.v("C07", "C07.issued-token-refused", "sync-collection on %s with issued token %r -> %s" % (coll, ctx.get("token_text"), r.status), status=r.status)
         return
